@@ -404,6 +404,11 @@ class Canon:
                 return mk("ite", self._not(c), y, x)
             if c.op == "not":
                 return mk("ite", c.args[0], y, x)
+            if c.op in ("and", "or"):
+                # choose the polarity with fewer negated conjuncts (De Morgan), so `if not (a or b)` and `if a or b` agree
+                nc = self._not(c)
+                if _negativity(nc) < _negativity(c) or (_negativity(nc) == _negativity(c) and nc.uid < c.uid and nc.op != "not"):
+                    return mk("ite", nc, y, x)
             return mk("ite", c, x, y)
         if op == "attr":
             base = self.canon(a[0])
@@ -556,6 +561,16 @@ def _lit(t: T):
 
 def _is_zero(t: T):
     return t.op == "const" and not isinstance(const_value(t), (str, type(None))) and const_value(t) == 0
+
+
+def _negativity(c: T) -> int:
+    if c.op in ("and", "or"):
+        return sum(_negativity(x) for x in c.args[0])
+    if c.op == "not":
+        return 1
+    if c.op == "cmp" and c.args[0] in ("!=", "is not", "not in"):
+        return 1
+    return 0
 
 
 def _is_seq(t: T):
